@@ -1977,6 +1977,11 @@ def transfer_lemmas(ctx, v):
                 probs.append("the sink is not sent the accumulator")
             if [1 for i, e in effs if e.kind == "send" and si < i < s0[4]]:
                 probs.append("a send lies between the update and the emission")
+        # the accumulator starts as a clone of the seed
+        accs = [c for c in v.op.cells.values()]
+        if len(accs) != 1 or not (strip_clone(accs[0].alloc[3][0] if accs[0].alloc[0] == "call" and accs[0].alloc[3] else ("x",)) == ("param", v.op.id, 2)
+                                  and accs[0].alloc[3][0] != ("param", v.op.id, 2)):
+            probs.append("the accumulator does not start as a clone of the seed")
         ctx.ob("ORD-update-emit", v.key(h, "Data", "ORD-update-emit", "scan-transfer"), not probs and paths,
                "UP.D: acc := reducer(acc.clone(), d); then emits acc.clone(), nothing in between" if not probs else "; ".join(sorted(set(probs))), v.loc(h))
     elif fam == "take":
@@ -2214,6 +2219,18 @@ def from_iter_lemmas(ctx, v):
                 probs.append("loop sends %s" % snd.variant)
     ctx.ob("REL-xor", v.key(t, None, "REL-xor", "one-advance-one-send-per-pull"), not probs and n_iter >= 2,
            "each iteration consumes one recorded pull, advances the iterator once and sends that item, or Terminate and leaves" if not probs else "; ".join(sorted(set(probs))[:3]), v.loc(t))
+    # the iterator advanced is the per-subscription clone of the factory's iterable, untouched (no adaptor in between)
+    its = {e.iter for e in v.all_effects(t) if e.kind == "iternext"}
+    okit = len(its) == 1
+    if okit:
+        it = list(its)[0]
+        lk = [x for x in walk(it) if x[0] == "lock"]
+        okit = bool(lk)
+        if okit:
+            c = v.op.cells.get(base_key(lk[0][1]))
+            a = c.alloc if c else None
+            okit = bool(a) and a[0] == "call" and a[2].endswith("RwLock::<T>::new") and a[3] and strip_clone(a[3][0]) == ("param", v.op.id, 1) and a[3][0] != ("param", v.op.id, 1)
+    ctx.ob("SCP-clone", "%s:iterator-is-clone-of-iterable" % v.name, okit, "the loop advances iter.clone().into_iter(), made per subscription, with no adaptor" if okit else "the iterator advanced is not the plain per-subscription clone of the iterable", v.loc(t))
     # iterator advanced only inside the thunk
     others = [b for b in v.op.bodies if b != t and any(e.kind == "iternext" for e in v.all_effects(b))]
     ctx.ob("PL-nonH", "%s:iternext-only-in-loop" % v.name, not others, "the iterator is advanced only inside the loop thunk", v.loc(t))
@@ -4131,6 +4148,23 @@ def lemma_state_per_subscription(ctx, v):
     bad = sorted(str(c.name) for c in v.op.cells.values() if c.scope not in okscopes)
     ctx.ob("SCP-sub", "%s:SCP-sub:state-per-subscription" % v.name, not bad,
            "all %d cells are allocated per subscription" % len(v.op.cells) if not bad else "state shared between subscriptions: %s" % bad, v.loc(v.op.id))
+    # INIT: every flag starts lowered, every talkback / value cell starts empty (each flag means "something has happened":
+    # a pull was recorded, the loop is running, the output is over, the iterator is exhausted, the task was cancelled)
+    badinit = []
+    n = 0
+    for k, c in v.op.cells.items():
+        a = c.alloc
+        if a[0] != "call":
+            continue
+        if "Atomic::<bool>::new" in a[2] or a[2].endswith("AtomicBool::new"):
+            n += 1
+            if not (a[3] and a[3][0][0] == "const" and a[3][0][3] == 0):
+                badinit.append("%s starts raised" % c.name)
+        elif a[2] == "std::convert::From::from" and a[3]:
+            n += 1
+            if not (a[3][0][0] == "agg" and a[3][0][2] == "Option::None"):
+                badinit.append("%s does not start empty" % c.name)
+    ctx.ob("INIT-flag", "%s:INIT-flag" % v.name, not badinit, "all %d flags start lowered and all option cells start empty" % n if not badinit else "; ".join(badinit), v.loc(v.op.id))
 
 
 def lemma_store_every_greeting(ctx, v):
@@ -4228,3 +4262,146 @@ _ADD = {
 }
 for _k, _t in _ADD.items():
     REGISTRY[_k]["explanation"] += _t
+
+
+# ============================================================================= additions after the third (analysis-aware) round
+
+def lemma_member_order(ctx, v):
+    """merge / concat: the collection the subscribe site indexes IS the factory's member parameter, converted element-wise and in
+    order (only order-preserving adaptors between the parameter and the indexed collection; the mapping closure is `s.into()`)."""
+    if v.family not in ("merge", "concat"):
+        return
+    if (ctx.prop == "C08" and v.family != "merge") or (ctx.prop in ("C09", "C06", "C14") and v.family != "concat"):
+        return
+    probs = []
+    n = 0
+    for e, b in subscribe_sends(v):
+        n += 1
+        r = e.recv
+        if r[0] != "index":
+            probs.append("the subscribed member is not an element of the member collection")
+            continue
+        base = r[1]
+        while base[0] == "field":
+            base = base[1]
+        if base != ("param", v.op.id, 1):
+            probs.append("the indexed collection is not the factory's member list converted in place (it is %s)" % show(base)[:80])
+    # the closures handed to the order-preserving adaptors are plain conversions of their argument
+    for b in v.op.bodies:
+        body = v.P.bodies[b]
+        if body.parent == v.op.id and not body.is_handler() and body.kind == "closure" and v.op.roles.get(b) in ("APPLICATION", "HELPER", "THUNK"):
+            used_by_map = any(e.kind == "alias" and b in (e.get("closures") or []) for e in v.all_effects(v.op.id))
+            if used_by_map:
+                r = v.P.link(body.origin_local(0))
+                if r != ("param", b, 2):
+                    probs.append("the element conversion closure is not `s.into()`")
+    ctx.ob("REL-member-order", "%s:REL-member-order" % v.name, not probs and n >= 1,
+           "members are subscribed from the factory's list, converted element-wise, in the order given" if not probs else "; ".join(sorted(set(probs))[:3]), v.loc(v.op.id))
+
+for _pid in ("C04", "C06", "C08", "C09", "C14"):
+    _wrap(_pid, lemma_member_order)
+
+
+# ============================================================================= macro-expansion probe (exported macro_rules! bodies)
+
+def probe_facts():
+    """Facts of the probe crate (engines/probe) built against the repo under analysis; cached by tree hash."""
+    import os, subprocess, hashlib
+    import run as _run
+    repo = os.environ.get("CB_REPO", "/repo")
+    th = _run.tree_hash(repo)
+    h = hashlib.sha256(open(os.path.join(_run.VERIF, "engines", "probe", "src", "lib.rs"), "rb").read()).hexdigest()[:8]
+    out = os.path.join(_run.WORK, "facts", "%s-probe-%s.json" % (th[:24], h))
+    if not os.path.exists(out):
+        os.makedirs(os.path.dirname(out), exist_ok=True)
+        import fcntl
+        with open(os.path.join(_run.WORK, "extract-default.lock"), "w") as lf:
+            fcntl.flock(lf, fcntl.LOCK_EX)
+            if not os.path.exists(out):
+                r = subprocess.run([os.path.join(_run.VERIF, "engines", "probe.sh"), repo, out + ".new"], capture_output=True, text=True)
+                if r.returncode != 0 or not os.path.exists(out + ".new"):
+                    return None, (r.stdout + r.stderr)[-400:]
+                os.rename(out + ".new", out)
+            fcntl.flock(lf, fcntl.LOCK_UN)
+    return Program(out), None
+
+
+def probe_lemmas(ctx, which):
+    """How the arguments of the exported macros flow into the library's entry points, decided on the MIR of a use site."""
+    saved = ctx.config
+    ctx.config = "probe"
+    P, err = probe_facts()
+    if P is None:
+        ctx.ob("MACRO-probe", "probe:extracted", False, "the macro-expansion probe crate could not be analysed: %s" % err)
+        ctx.config = saved
+        return
+    def params_in_order(ops, n):
+        return len(ops) == n and all(op[0] == "param" and op[2] == i + 1 for i, op in enumerate(ops))
+    for name in which:
+        bid = "probe_" + name
+        b = P.bodies.get(bid)
+        if b is None:
+            ctx.ob("MACRO-probe", "probe:%s:present" % name, False, "probe function missing")
+            continue
+        body_effects(P, b)
+        calls = [e for e in b.effects.values()]
+        if name in ("concat", "merge"):
+            entry = [e for e in calls if e.get("callee") == "callbag::%s" % name]
+            arrays = [se for se in b.stmt_effects.values() if se.kind == "pstore" and isinstance(se.value, tuple) and se.value[0] == "agg" and se.value[1] == "array"]
+            # nothing but the vec! plumbing and the entry point may be called (anything else could permute or replace members)
+            okc = ("std::boxed::", "alloc::", "std::vec::Vec::<T, A>::into_boxed_slice", "std::slice::<impl [T]>::into_vec", "alloc::slice::<impl [T]>::into_vec",
+                   "core::slice::<impl [T]>::into_vec", "callbag::%s" % name)
+            hof = [e for e in calls if e.kind != "panic" and not (e.get("callee") or "?").startswith(okc)]
+            ok = len(entry) == 1 and len(arrays) == 1 and params_in_order(arrays[0].value[3], 3) and not hof
+            ctx.ob("MACRO-probe", "probe:%s!:members-in-order" % name, ok,
+                   "%s!(a, b, c) hands [a, b, c], in this order, to %s()" % (name, name) if ok else
+                   "%s!(a, b, c) does not hand exactly [a, b, c] to %s() (arrays: %s, entry calls: %d)" % (name, name, [show(a.value) for a in arrays], len(entry)), loc_of(b.span))
+        elif name == "combine":
+            entry = [e for e in calls if e.get("callee") == "callbag::combine"]
+            ok = len(entry) == 1 and entry[0].args and entry[0].args[0][0] == "agg" and entry[0].args[0][1] == "tuple" and params_in_order(entry[0].args[0][3], 3)
+            ctx.ob("MACRO-probe", "probe:combine!:members-in-order", ok, "combine!(a, b, c) calls combine((a, b, c))" if ok else "combine!(a, b, c) does not call combine((a, b, c))", loc_of(b.span))
+        elif name in ("pipe", "pipe2"):
+            n = 3 if name == "pipe" else 1
+            # nested application: stage k is called on the result of stage k-1, the first on x
+            seq = []
+            cur = 0
+            blk = b.blocks[cur]
+            probs = []
+            prev = ("param", bid, 1)
+            for k in range(n):
+                t = blk["term"]
+                if t["k"] != "call" or "indirect" not in t["callee"]:
+                    probs.append("stage %d is not a call of the stage function" % (k + 1))
+                    break
+                fn = P.link(b.operand_expr(t["callee"]["indirect"]))
+                arg = P.link(b.operand_expr(t["args"][0])) if t["args"] else None
+                if fn != ("param", bid, k + 2):
+                    probs.append("call %d applies %s, expected stage %d" % (k + 1, show(fn), k + 1))
+                if k == 0 and arg != ("param", bid, 1):
+                    probs.append("the first stage is not applied to the piped value")
+                if k > 0 and not (arg is not None and arg[0] == "call" and arg[1][1] == prev_bb):
+                    probs.append("stage %d is not applied to the result of stage %d" % (k + 1, k))
+                prev_bb = cur
+                if not t["succ"]:
+                    break
+                cur = t["succ"][0]
+                blk = b.blocks[cur]
+            if blk["term"]["k"] != "return":
+                probs.append("more calls than stages")
+            ctx.ob("MACRO-probe", "probe:pipe!:%d-stages-left-to-right" % n, not probs,
+                   "pipe!(x, s1..s%d) is s%d(..s1(x))" % (n, n) if not probs else "; ".join(probs), loc_of(b.span))
+    ctx.config = saved
+
+
+def _post_chain(pid, extra_post):
+    old = REGISTRY[pid].get("post")
+    def post(ctx, models, tier):
+        r = old(ctx, models, tier) if old else {}
+        extra_post(ctx, models, tier)
+        return r or {}
+    REGISTRY[pid]["post"] = post
+
+_post_chain("C06", lambda ctx, models, tier: probe_lemmas(ctx, ["pipe", "pipe2", "concat"]))
+_post_chain("C08", lambda ctx, models, tier: probe_lemmas(ctx, ["merge"]))
+_post_chain("C09", lambda ctx, models, tier: probe_lemmas(ctx, ["concat"]))
+_post_chain("C10", lambda ctx, models, tier: probe_lemmas(ctx, ["combine"]))
